@@ -73,11 +73,19 @@ def build_algo(AlgorithmSettings, algorithm_factory, n_iter, count, frac, power)
         return algorithm_factory(AlgorithmSettings("mcmc_saem", **kws))
 
 
-def run_stub(env, n_iter, count, frac, power, stats_seq):
-    """Drive the real algorithm object iteration by iteration with a stub model."""
+def run_stub(env, n_iter, count, frac, power, stats_seq, reconf=None):
+    """Drive the real algorithm object iteration by iteration with a stub model.
+    `reconf` = (how, N): after construction the explicit count is changed through the documented `load_parameters`
+    ("load") or by assignment to `algo_parameters` ("assign"); the run must then follow N."""
     torch, AlgorithmSettings, algorithm_factory, LAIE = env
     try:
         algo = build_algo(AlgorithmSettings, algorithm_factory, n_iter, count, frac, power)
+        if reconf is not None:
+            how, N = reconf
+            if how == "load":
+                algo.load_parameters({"n_burn_in_iter": N})
+            else:
+                algo.algo_parameters["n_burn_in_iter"] = N
     except Exception as e:  # noqa
         return {"ctor": err_class(e, LAIE)}
     nb = algo.algo_parameters["n_burn_in_iter"]
@@ -385,6 +393,23 @@ def run(chk: core.Check):
                  tags={"kind": "stub", "ctor": res["ctor"], "n_iter_bucket": (n_iter // 10) * 10,
                        "given": "count" if count is not None else ("frac" if frac is not None else "none")})
     compare_with_model(chk, cases, results)
+    # the same, with the explicit count given after construction (documented `load_parameters`, or plain assignment)
+    rng = chk.rng
+    recases, reresults = [], []
+    for _ in range(120 if chk.tier == "thorough" else 30):
+        n = rng.randrange(3, 40)
+        N = rng.randrange(0, n + 1)
+        how = rng.choice(["load", "assign"])
+        c0 = (n, None, rng.choice(FRACS), rng.choice([0.51, 0.8, 1.0]), gen_stats(rng, n, 2))
+        res = run_stub(env, *c0, reconf=(how, N))
+        c = (n, N, c0[2], c0[3], c0[4])          # what the run must look like: explicit count N
+        cj = dict(case_json(c), reconfigured_after_construction=how, constructed_with_fraction=c0[2])
+        for f in predicate_failures(n, N, c0[2], c0[3], c0[4], res):
+            chk.impl_failure(cj, f"(count set after construction by {how}) " + f)
+        recases.append(c)
+        reresults.append(res)
+        chk.case(("reconf", n, N, how, c0[2], c0[3]), nontrivial=(N + 2 <= n), tags={"kind": "stub-reconfigured", "how": how})
+    compare_with_model(chk, recases, reresults)
     ctor_grid(chk, env)
     # real fits
     fits = [("logistic", 8, None, 0.5, 0.8, 0), ("linear", 7, 2, None, 1.0, 1), ("logistic_scalar", 9, None, 0.29, 0.51, 2)]
